@@ -199,6 +199,7 @@ func checkC02(c *Ctx) {
 	c.Obs("combinator_kinds_exercised", kindSeen)
 
 	c02Blends(c)
+	c02Fold(c)
 	c02Cache(c)
 	c02Voxel(c)
 	c02Slice(c)
